@@ -132,8 +132,14 @@ Fixpoint frings_of (values : list float) (offs : list nat) : list (list float) :
 Definition fwinding_number (x y : float) (values : list float) (offs : list nat) : Z :=
   fold_left (fun acc r => (acc + fpip_ring x y r)%Z) (frings_of values offs) 0%Z.
 
+(* np.isfinite(v): neither NaN nor +-inf *)
+Definition fisfinite (v : float) : bool := is_finite v.
+
 Definition fpoint_intersects_polygon (x y : float) (values : list float) (offs : list nat) : bool :=
-  negb (fwinding_number x y values offs =? 0)%Z.
+  (* if not (np.isfinite(x) or np.isfinite(y)): return False
+     (a point without any finite coordinate is empty: it is inside no polygon) *)
+  if negb (fisfinite x || fisfinite y) then false
+  else negb (fwinding_number x y values offs =? 0)%Z.
 
 (* ---- compute_area(values, value_offsets), float64 values ---- *)
 
